@@ -43,6 +43,7 @@ def plan(tier, seed):
     # the sweep covers all 65536 pairs in thorough; a seeded 1/16 slice in quick
     for i in range(nsweep):
         specs.append({"what": "sweep", "part": i, "of": nsweep})
+    specs.append({"what": "race", "suites": ['parse']})
     return specs
 
 
@@ -58,6 +59,12 @@ def _mk(clsid, payload, mode, bf, kind, idkind):
 
 
 def run_shard(spec, ctx, acc):
+    if spec.get("what") == "race":
+        # steady-state concurrency (see vp/props/racing.py)
+        for suite in spec["suites"]:
+            case = {"kind": "race", "suite": suite, "seconds": 1.2 if ctx["tier"] == "quick" else 20}
+            core.handle(acc, check(case), case, set(ctx["known"]))
+        return
     known = set(ctx["known"])
     tier = ctx["tier"]
     if spec["what"] == "targets":
@@ -256,6 +263,10 @@ def twin_payload(payload, i, d):
 
 
 def check(case) -> core.Out:
+    if isinstance(case, dict) and case.get("kind") == "race":
+        from vp.props import racing
+
+        return racing.check_race(PROP, case)
     import pyubx2
 
     clsid, payload, mode, bf = bytes(case["clsid"]), bytes(case["payload"]), case["mode"], case["bf"]
